@@ -423,6 +423,23 @@ func (r *Ref) Eval(e *Expr, st State) (Val, error) {
 		return vB(!v.B), nil
 	case "call":
 		return r.evalCall(e, st)
+	case "member":
+		v, err := r.Eval(e.L, st)
+		if err != nil {
+			return Val{}, err
+		}
+		if v.K != TAny || !v.Obj.IsValid() {
+			return Val{}, evalErr("member %s of a nil or scalar value", e.Fn)
+		}
+		base, ok := derefAll(v.Obj)
+		if !ok || base.Kind() != reflect.Struct {
+			return Val{}, evalErr("member %s of a nil value", e.Fn)
+		}
+		f := base.FieldByName(e.Fn)
+		if !f.IsValid() {
+			return Val{}, evalErr("no field %s", e.Fn)
+		}
+		return scalarOf(f), nil
 	case "&&", "||":
 		l, err := r.Eval(e.L, st)
 		if err != nil {
@@ -634,6 +651,11 @@ func compare(op string, a, b Val) (bool, error) {
 			}
 		}
 	default:
+		if (op == "==" || op == "!=") && (a.K == TStr || a.K == TBool) {
+			// the documentation does not say what equality across families means when a string or
+			// boolean stands on the left (the engine answers false for both == and !=)
+			return false, domErr("equality of %s with %s", a.K, b.K)
+		}
 		return false, evalErr("comparison of %s with %s", a.K, b.K)
 	}
 	switch op {
